@@ -3,11 +3,17 @@
 //verif:replace@C09e os.Stat = c09eStat
 //verif:replace@C09e os.ReadFile = c09eReadFile
 //verif:replace@C09e os/user.Lookup = c09eLookup
+//verif:replace@C09e os.Open = c09eOpen
+//verif:replace@C09e os.OpenFile = c09eOpenFile
+//verif:replace@C09e (*os.File).Read = c09eRead
+//verif:replace@C09e (*os.File).Close = c09eClose
+//verif:replace@C09e (*os.File).Stat = c09eFStat
 
 package server
 
 import (
 	"errors"
+	"io"
 	iofs "io/fs"
 	"net"
 	"time"
@@ -42,6 +48,37 @@ func c09eReadFile(name string) ([]byte, error) {
 		return []byte(c), nil
 	}
 	return nil, errors.New("open " + name + ": no such file or directory")
+}
+// however the callback reads the file (os.ReadFile, or open/read/close), it sees the same machine
+var c09eOpenFiles = map[*os.File]*c09eHandle{}
+
+type c09eHandle struct {
+	name string
+	off  int
+}
+
+func c09eOpen(name string) (*os.File, error) { return c09eOpenFile(name, os.O_RDONLY, 0) }
+func c09eOpenFile(name string, flag int, perm os.FileMode) (*os.File, error) {
+	if _, ok := c09eFiles[name]; !ok {
+		return nil, &iofs.PathError{Op: "open", Path: name, Err: iofs.ErrNotExist}
+	}
+	f := new(os.File)
+	c09eOpenFiles[f] = &c09eHandle{name: name}
+	return f, nil
+}
+func c09eRead(f *os.File, p []byte) (int, error) {
+	h := c09eOpenFiles[f]
+	c := c09eFiles[h.name]
+	if h.off >= len(c) {
+		return 0, io.EOF
+	}
+	n := copy(p, c[h.off:])
+	h.off += n
+	return n, nil
+}
+func c09eClose(f *os.File) error { return nil }
+func c09eFStat(f *os.File) (os.FileInfo, error) {
+	return c09eInfo{int64(len(c09eFiles[c09eOpenFiles[f].name]))}, nil
 }
 func c09eLookup(name string) (*osuser.User, error) {
 	if h, ok := c09eHomes[name]; ok {
@@ -86,6 +123,12 @@ func VerifC09eWhoseKeys() {
 	config.Common.CacheDir = "cache"
 	config.Server.Permissions = config.Permissions{Default: []string{"^/.*$"}}
 	os.Setenv("HOME", "/home/dserver")
+	c09eOpenFiles = map[*os.File]*c09eHandle{}
+	// an earlier login attempt of another user (or none) must not change the decision
+	if before := verifrt.Choose("earlier-login", len(c09eUsers)+1); before > 0 {
+		PublicKeyCallback(c09eMeta{c09eUsers[before-1]}, c09Key{verifrt.ByteIn("offered-earlier", "123")})
+		verifrt.Reach("second-login")
+	}
 	name := c09eUsers[verifrt.Choose("user", len(c09eUsers))]
 	key := verifrt.ByteIn("offered", "123")
 	perms, err := PublicKeyCallback(c09eMeta{name}, c09Key{key})
